@@ -144,7 +144,7 @@ def reading_events(case, rd, img, kind, tf, reg, base_lab, path, expect=None):
 # ------------------------------------------------------------------------------------------------
 # cases
 # ------------------------------------------------------------------------------------------------
-def readings_for(rng, kind, quick):
+def readings_for(rng, kind, quick, big=False):
     """list of presentations; the first is the base"""
     nes = [3, 4, 5, 6, 7, 8, 9]
     rng.shuffle(nes)
@@ -155,10 +155,12 @@ def readings_for(rng, kind, quick):
         return out
     syms = raster.SYMS[1:]
     if kind == "shipped" and quick:
-        syms = rng.sample(syms, 2)
+        syms = rng.sample(syms, 1 if big else 2)
     for i, s in enumerate(syms):
         out.append({"sym": s, "pad": [0, 0, 0, 0], "mirror": rng.random() < 0.35, "ne": nes[(i + 1) % 7]})
     out.append({"sym": "id", "pad": [0, 0, 0, 0], "mirror": True, "ne": nes[2]})
+    if big and quick:
+        return out
     out.append({"sym": rng.choice(raster.SYMS), "pad": [rng.choice([0, 1, 3, 17]) for _ in range(4)],
                 "mirror": False, "ne": nes[3]})
     out[-1]["pad"][rng.randrange(4)] = rng.choice([1, 2, 7])
@@ -254,16 +256,17 @@ def voronoi_specs(ctx):
         rng = random.Random(ctx.seed * 100003 + i)
         if ctx.quick:
             ncells = rng.choice([4, 5, 6, 7, 8, 10, 12])
-            px = rng.choice([35, 36, 38, 40, 44])
+            px = rng.choice([37, 38, 40, 42, 45])
         else:
             ncells = rng.choice([4, 5, 6, 8, 10, 14, 20, 30, 45, 60]) if i % 10 else rng.choice([45, 60])
-            px = rng.choice([35, 40, 50, 60, 75, 90]) if ncells <= 20 else rng.choice([35, 40, 50])
+            px = rng.choice([37, 40, 50, 60, 75, 88]) if ncells <= 20 else rng.choice([37, 40, 50])
         specs.append({"kind": "voronoi", "seed": ctx.seed * 7919 + i, "ncells": ncells, "px": px})
     return specs
 
 
 def shipped_specs(ctx):
-    paths = SHIPPED[:2] + [SHIPPED[2 + ctx.seed % 5]] if ctx.quick else SHIPPED
+    # quick: the two test fixtures and the one in-vivo frame without fused junctions
+    paths = SHIPPED[:2] + [SHIPPED[6]] if ctx.quick else SHIPPED
     return [{"kind": "shipped", "path": p} for p in paths]
 
 
@@ -273,7 +276,7 @@ def run(ctx):
     payloads = {}
     for i, spec in enumerate(specs, start=1):
         rng = random.Random(ctx.seed * 65537 + i)
-        spec["readings"] = readings_for(rng, spec["kind"], ctx.quick)
+        spec["readings"] = readings_for(rng, spec["kind"], ctx.quick, big="in_vivo" in spec.get("path", ""))
         payloads[i] = spec
         jobs.append((i, spec))
     # biggest images first so that the pool is balanced
@@ -288,7 +291,10 @@ def run(ctx):
             skipped += 1
             continue
         cases.append((case, evs))
-    verdicts = ctx.validate("Trace_Skeleton", cases, timeout=3000, heap="3g")
+    nbytes = sum(len(json.dumps(e)) for _, evs in cases for e in evs)
+    ctx.extra["trace_bytes"] = nbytes
+    shards = min(core.NCPU, max(2, nbytes // 700000))
+    verdicts = ctx.validate("Trace_Skeleton", cases, timeout=3000, heap="3g", shards=shards)
     _account(ctx, verdicts, payloads, info, skipped)
     ctx.judge(verdicts, payloads)
     ctx.rule = ("One case = one image in several readings (8 symmetries of the square, padding/translation, mirror_y, "
@@ -348,7 +354,8 @@ def replay(ctx, payload):
     spec = payload["input"]
     spec["keep_images"] = True
     if "readings" not in spec:
-        spec["readings"] = readings_for(random.Random(payload["seed"]), spec["kind"], payload.get("tier") == "quick")
+        spec["readings"] = readings_for(random.Random(payload["seed"]), spec["kind"], payload.get("tier") == "quick",
+                                        big="in_vivo" in spec.get("path", ""))
     case, evs, inf = case_job((1, spec))
     if not evs:
         raise core.MachineryFailure(f"replay: image could not be regenerated ({inf})")
